@@ -11,7 +11,9 @@ MOODS = ["happy", "lonely", "errory", "scary", "weird", "", ABSENT]
 
 WEIRD = ["", " ", "\u0000", "‮abc", "\U0001F600", "a" * 300, "0", "00", "-1", "1e3",
          "null", "é", "é", "'; DROP TABLE nameplates;--", "%s", "\\", "\"", "~~",
-         "퟿", "￿", "\t\n", "1.0", "١"]
+         "퟿", "￿", "\t\n", "1.0", "١",
+         # str.isdigit() / str.isnumeric() accept these, int() does not (or reads another number)
+         "²", "①", "1²", "٣٤"]
 
 
 def make_tokens(rng, profile):
@@ -23,7 +25,7 @@ def make_tokens(rng, profile):
     rng.shuffle(pool)
 
     def pick(kind, tok, prefix=""):
-        if plain or rng.random() < 0.4 or not pool or (kind == "name" and pool[-1].isdigit()):
+        if plain or rng.random() < 0.4 or not pool or (kind == "name" and pool[-1].isascii() and pool[-1].isdigit()):
             # (digit strings are the numeric nameplates themselves)
             T.define(kind, tok, "%s%s-%s" % (prefix, kind, tok))
         else:
@@ -120,6 +122,9 @@ class Gen(object):
                     cv = r.choice(["#[1]", "#{}"])     # a client_version that is not a pair
                 return msg0(type="bind", appid=opt(r.choice(p["apps"])), side=opt(r.choice(p["sides"])), cv=cv)
             ty = r.choice(["ping", "list", "claim", "open", "bogus", ABSENT])
+        elif r.random() < p.get("rebind", 0):
+            # a bound connection tries to bind again, to whatever app
+            return msg0(type="bind", appid=r.choice(p["apps"]), side=r.choice(p["sides"]))
         else:
             w = dict(allocate=1, claim=2, release=1, open=2, add=3, close=2, list=1)
             w.update(p.get("type_weights", {}))
@@ -494,6 +499,10 @@ def run_reuse(rng, drv, profile, tid):
                 # close sent on another connection of the same side; the subscribed one lingers
                 fresh(alt, app, pair[k])
                 cmd(alt, type="close", mailbox=cur, mood=rng.choice(moods))
+                if rng.random() < 0.4:
+                    # ... and has second thoughts: opens it again and speaks
+                    cmd(alt, type="open", mailbox=cur)
+                    cmd(alt, type="add", phase=rng.choice(["p5", "p6"]), body="again")
                 if rng.random() < 0.5:
                     do(ev0("Drop", c=alt))
             else:
